@@ -118,4 +118,13 @@ CLAIMS = {
             "exhaustive for defaults (40x3x17).",
             "Trusted: Lean kernel; translator; f64 rounding and float formatting modelled as exact dyadics (validated by byte-exact comparison on dyadic inputs).",
             "Lean 4 decide +kernel on regenerated frame table + symbolic dyadic arithmetic + exhaustive differential check of defaults"),
+    "C14": ("proof",
+            "Lean 4 on the builder state machine, for EVERY history of setter and build calls: the k-th build returns exactly "
+            "build(input, options set so far) and leaves the options unchanged (C14_history), the option state depends only on "
+            "the last setter per option (C14_last_wins), two histories with the same last setters build the same thing "
+            "(C14_same_final); renderers are functions of (QR, options). Thread schedules are NOT modelled (partial): covered "
+            "by a source audit on every run (no static mut / thread_local / interior mutability / unsafe outside the hooks) "
+            "and by 1..16-thread runs of the real builder compared digest by digest with single-threaded runs and the model.",
+            "Trusted: Lean kernel; hand model of QRBuilder; the audit regexp; rustc's aliasing guarantees for &self over plain data.",
+            "Lean 4 induction over operation histories + source audit + threaded differential runs"),
 }
